@@ -49,6 +49,9 @@ func execGenericPair(g *genericPair, st *Stats, prep func(c Case, id int) *Prepa
 	pa, pb := prep(g.A, 0), prep(g.B, 1)
 	s := RunScheduled(g.tape, g.Strategy, []*Proc{pa.Proc, pb.Proc}, []func() error{pa.Body, pb.Body})
 	st.Add("fired.context_switches", int64(s.Switches))
+	if s.Switches >= 2 {
+		st.InSet("schedules_with_2plus_switches (hash of the grant sequence: process, site)", s.Hash())
+	}
 	st.Count("strategy." + stratNames[s.Strategy])
 	st.Count("scheduled_pairs")
 	if s.Uncontrolled {
